@@ -225,7 +225,10 @@ class Fn:
     of Terms carrying their internal index.
     """
 
-    def __init__(self, name, params, defaults=None, n_out=1, out_shape=None, tag="", none_mod=0, seq_out=False):
+    def __init__(self, name, params, defaults=None, n_out=1, out_shape=None, tag="", none_mod=0, seq_out=False,
+                 outer=None, dict_out=None):
+        self.outer = dict(outer or {})  # own parameter name -> name in the pipeline (PipeFunc renames); logs use the latter
+        self.dict_out = tuple(dict_out) if dict_out else None  # return {output name: value} (custom output_picker)
         self.none_mod = none_mod  # >0: return None (a legitimate value) for about one call in none_mod
         self.seq_out = seq_out  # the single result is itself a sequence (a 2-tuple of terms), not two outputs
         self.name = name
@@ -250,7 +253,7 @@ class Fn:
 
     def __reduce__(self):
         return (Fn, (self.name, self.params, self.sig_defaults, self.n_out, self.out_shape, self.tag, self.none_mod,
-                     self.seq_out))
+                     self.seq_out, self.outer, self.dict_out))
 
     def _one(self, fname, args):
         if self.out_shape is None:
@@ -269,14 +272,17 @@ class Fn:
             if self.seq_out and self.out_shape is None:
                 return (Term(base, args, "a"), Term(base, args, "b"))
             return self._one(base, args)
-        return tuple(self._one(f"{base}#{k}", args) for k in range(self.n_out))
+        vals = tuple(self._one(f"{base}#{k}", args) for k in range(self.n_out))
+        if self.dict_out:
+            return dict(zip(self.dict_out, vals))
+        return vals
 
     def __call__(self, *a, **kw):
         if a:
             kw.update(zip([p for p in self.__signature__.parameters], a))
         for p, d in self.sig_defaults.items():
             kw.setdefault(p, d)
-        args = tuple((p, canon(kw[p])) for p in self.params)
+        args = tuple((self.outer.get(p, p), canon(kw[p])) for p in self.params)
         sim = context.CURRENT
         if sim is None:  # called outside a simulation (e.g. by an independent reader)
             return self.build(args)
@@ -294,6 +300,11 @@ class Fn:
         end = k.yield_point(f"ret:{name}")
         sim.calls.append(CallRec(name, args, start, end, tname, sim.attempt, False))
         return self.build(args)
+
+
+def dict_picker(output, name):
+    """Module-level (picklable) custom output_picker for functions that return {output name: value}."""
+    return output[name]
 
 
 def term_base(t: Term):
